@@ -295,6 +295,14 @@ def RepL (st : Store) : List Val → List Tree → Prop
   | _ :: _, [] => False
 end
 
+/-- all results, or none -/
+def collect (f : Val → Option Tree) : List Val → Option (List Tree)
+  | [] => some []
+  | v :: vs =>
+    match f v, collect f vs with
+    | some t, some ts => some (t :: ts)
+    | _, _ => none
+
 /-- executable unfolding with a depth bound (the driver prints it; `Rep` implies it for enough fuel) -/
 def unfold (st : Store) : Nat → Val → Option Tree
   | _, .atom a => some (.atom a)
@@ -302,17 +310,22 @@ def unfold (st : Store) : Nat → Val → Option Tree
   | fuel + 1, .ref o =>
     match get st o with
     | none => none
-    | some ob =>
-      (ob.slots.foldr (fun v acc => match unfold st fuel v, acc with
-          | some t, some ts => some (t :: ts)
-          | _, _ => none) (some [])).map (Tree.node ob.kind)
+    | some ob => (collect (fun v => unfold st fuel v) ob.slots).map (Tree.node ob.kind)
 
-/-- M and S agree on every holder -/
+mutual
+def Tree.depth : Tree → Nat
+  | .atom _ => 0
+  | .node _ cs => Tree.depthL cs + 1
+def Tree.depthL : List Tree → Nat
+  | [] => 0
+  | t :: ts => max t.depth (Tree.depthL ts)
+end
+
+/-- M and S agree on every holder: the same holders are bound, and what a holder holds in M unfolds
+to the pure value it has in S -/
 def Agree (s : State) (hs : SHolders) : Prop :=
-  ∀ h, match get s.hold h, get hs h with
-    | none, none => True
-    | some v, some t => Rep s.store v t
-    | _, _ => False
+  ∀ h, (get s.hold h = none ↔ get hs h = none) ∧
+    ∀ v t, get s.hold h = some v → get hs h = some t → Rep s.store v t
 
 /-- the reference count of every object is the number of references to it (holders, slots of objects,
 pending releases); an absent object has no references -/
